@@ -65,6 +65,7 @@ func (o locObs) String() string {
 }
 
 type histRun struct {
+	digitNames bool // issuer names A/B end in "2"/"24"
 	h      *Harness
 	w      *World
 	cfg    histCfg
@@ -241,10 +242,14 @@ func runCRLHistory(h *Harness, cfg histCfg) {
 		h.R.Config = "faulty"
 	}
 	r.cfg.faulty = faulty
-	dnA, dnB := Pick(tp, 0, 0, 1, 2, 3, 4, 5, 6), Pick(tp, 0, 0, 1, 2, 3, 4, 5)
+	dnA, dnB := Pick(tp, 0, 0, 1, 2, 3, 4, 5, 6, 7), Pick(tp, 0, 0, 1, 2, 3, 4, 5)
 	if dnA == 6 {
 		dnB = 6 // the two issuing CAs' names then differ in one UTF-8 continuation byte only
 	}
+	if dnA == 7 {
+		dnB = 7 // A's name string ends in "2", B's in "24": (B, s) and (A, "4"+s) must stay different certificates
+	}
+	r.digitNames = dnA == 7
 	sc["dn"] = fmt.Sprintf("%d/%d", dnA, dnB)
 	w := NewWorld(h, WorldOpts{Intermediate: tp.Chance(1, 2), RSA: tp.Chance(1, 6), DNShapeA: dnA, DNShapeB: dnB})
 	r.w = w
@@ -556,6 +561,10 @@ func (r *histRun) handshakeWith(n *hNode, l *hLoc, class string, k int, cdpKind 
 			issuer = r.w.B
 		} else {
 			issuer = r.w.A
+			if r.digitNames && tp.Chance(1, 2) {
+				// B's name string is A's followed by "4": the serial "4"+s under A spells the same name+serial text
+				serial, _ = new(big.Int).SetString("4"+l.Common.String(), 10)
+			}
 		}
 	}
 	// CDP set of the presented certificate
